@@ -6,16 +6,64 @@ Modelled (validated by the streams, tied by regenerated tables): urllib quote / 
 codec error handler, urlsplit / urlunsplit and the SplitResult attributes, iri_to_uri / uri_to_iri,
 the latin-1 dances, EnvironBuilder (__init__ with every argument form, properties, get_environ,
 from_environ), Request (path, root_path, host, args, full_path, url / base_url / root_url / host_url),
-sansio get_host / get_current_url, wsgi.get_current_url, DispatcherMiddleware, ProxyFix.
+sansio get_host (Host header and the SERVER_NAME / SERVER_PORT fallback) / get_current_url,
+wsgi.get_current_url, DispatcherMiddleware, ProxyFix.
 Opaque (stated laws `HostLaws` / `AsciiHostLaws`, shown satisfiable): ipaddress validation of a bracketed
 host, the NFKC test of `_checknetloc`, `hostname.lower()` + IDNA codec / `_decode_idna`;
-`parse_list_header` (C06) for ProxyFix; `_urlencode` / `parse_qsl` are C02's model.
+`parse_list_header` (C06) for ProxyFix; `_urlencode` / `parse_qsl` are C02's model - its `unquote` is
+proved equal to this property's (`unquote_models_agree`).
 
 Repaired in /repo and kept as regression cases of stream iri-uri: F15a (`_decode_idna` leaves a
 malformed `xn--` label as punycode, c7898ed), F15b (`[` `]` in the keep-quoted set of the userinfo,
 319c4e1 - `keep_tables_cover_reserved`); F15d (899f28c) and F15e (16e16ac) are regression cases of
-stream environ-kernel. Known finding with a negation witness: F15c (`environ_path_full_false`: urlsplit
-inside EnvironBuilder drops TAB/CR/LF) - the explicit exclusion of `environ_url_roundtrip`.
+stream environ-kernel. Known findings with a negation witness:
+* F15c (`environ_path_full_false`: urlsplit inside EnvironBuilder drops TAB/CR/LF) - the explicit
+  exclusion of `environ_url_roundtrip`;
+* F15f (`from_environ_roundtrip_full_false`: `EnvironBuilder.from_environ` hands the DECODED PATH_INFO
+  to the URL-syntax `path` parameter - `%XX` is decoded once more, `#...` cut, `?` refused). Decision
+  (the reasoning is in the doc comment of `from_environ_roundtrip_full_false`): this IS a clause of the
+  property - "a path ... given to the environ builder [is] recovered exactly by the request object":
+  `from_environ` is an entry point of the environ builder, the thing given is an environ whose
+  PATH_INFO denotes a path, and `Request(from_environ(e).get_environ()).path != Request(e).path`. The
+  quantifier's "(path, query mapping, base_url) given to EnvironBuilder" is literally the call
+  `from_environ` makes. The `_partial` side is `from_environ_roundtrip` (hypotheses: exactly no `%XX`
+  escape, no `?`, no `#`, plus F15c's TAB/CR/LF and the quantifier's `//`).
+
+Clause -> theorem map (property text, clause by clause):
+* "IRI -> URI always yields pure ASCII": `quote_ascii`, `iriToUri_ascii`, `iriToUriText_ascii_idempotent`
+* "is idempotent": `quote_idempotent` (+ `_not_idempotent_without_percent`), `iri_safe_sets_keep_percent`,
+  `iriToUri_idempotent`, `iriToUri_idempotent_parts`, `iriToUriText_ascii_idempotent`
+  (+ `iriToUriText_not_idempotent_without_host`)
+* "undone by URI-to-IRI up to normalisation (each direction a fixpoint after one step)": `uriToIri_fixpoint`,
+  `uriToIri_fixpoint_parts`, `iri_uri_iri`, `uriToIriText_fixpoint_and_roundtrip`
+  (+ `uriToIri_fixpoint_needs_wellformed`)
+* "component-specific reserved characters and invalid percent-escapes left quoted rather than
+  reinterpreted": `keep_tables_cover_reserved`, `keep_tables_ok`, `keep_tables_are_always_unsafe_plus_extra`,
+  `iri_safe_sets_respect_delimiters`, `current_url_safe_sets_respect_delimiters`,
+  `current_url_quoting_is_lossless`, `parse_qsl_after_partial_unquote`
+* "a path ... given to the environ builder [is] recovered (path)": `environ_url_roundtrip` (exclusions:
+  `environ_url_roundtrip_exclusions_needed`, `environ_path_full_false` = F15c), `environ_path_roundtrip`,
+  `dance_roundtrip`, `unquote_quote_inverse`; through `from_environ`: `from_environ_roundtrip`,
+  `from_environ_roundtrip_full_false` = F15f, `from_environ_reinterprets_decoded_path`
+* "query ... recovered (args)": `builder_args_roundtrip`, `builder_text_args`, `builder_query_forms`,
+  `builder_path_and_query_refused`, `builder_str_form`, `urlencode_safe_ok`, `unquote_models_agree`
+* "base URL ... recovered (host)": `environ_url_roundtrip` (host clause), `get_host_on_hostport`,
+  `get_host_drops_only_default_port`, `get_host_tables_agree`, `get_host_server_fallback`,
+  `get_host_server_table_agrees`, `builder_server_table_agrees`
+* "(reconstructed URL)": `environ_url_roundtrip` / `environ_url_roundtrip_partial` (scheme, host, port,
+  path component denotes root_path + path, query component denotes the query string),
+  `environ_url_query_denotes_mapping` (the query component, parsed, IS the mapping),
+  `environ_url_roundtrip_query_grammar_needed`, `request_url_family`, `url_root_denotes`,
+  `wsgi_current_url_is_request_url`, `full_path_keeps_question_mark`
+* "for all Unicode": every theorem above quantifies over `List Char` (Unicode scalar values)
+* "path-dispatching middleware preserves the concatenation of script name and path info while choosing
+  the longest matching mount": `dispatcher_preserves_concat`, `dispatcher_longest_mount`,
+  `dispatcher_default_unchanged` (+ `dispatcher_default_needs_leading_slash`); ProxyFix (a middleware
+  in front of the app): `proxyfix_preserves_path_info`, `proxyfix_prefix_replaces_script_name`,
+  `proxyfix_scheme`, `proxyfix_nth_from_right`, `proxyfix_port_replaces`
+* glue pinned to the source: `environ_entries_pinned`, `call_sites_pinned`, `proxyfix_writes_pinned`
+Only stream-covered: the opaque IDNA / ipaddress / NFKC steps (laws stated, evaluated live per case),
+`script_root` / `url_root` aliases, REQUEST_URI / RAW_URI / SERVER_NAME / SERVER_PORT of the environ.
 
 All theorems listed in DESIGN.md for C15 (P0 and P1) are proved below; nothing is left OPEN:
 `environ_url_roundtrip` starts at EnvironBuilder's ARGUMENTS, every exclusion has a necessity witness.
@@ -27,9 +75,12 @@ import WzVerif.Lemmas.UrlBuilderForms
 import WzVerif.Lemmas.UrlFamily
 import WzVerif.Lemmas.UrlFamilySplit
 import WzVerif.Lemmas.UrlFromEnviron
+import WzVerif.Lemmas.UrlNoEscape
+import WzVerif.Lemmas.UrlQueryDenote
 import WzVerif.Lemmas.UrlDispatch
 import WzVerif.Lemmas.UrlProxyFix
 import WzVerif.Model.UrlEnviron
+import WzVerif.Model.UrlHostServer
 import WzVerif.Gen.UrlGlue
 namespace Wz.Props.C15
 open Wz Wz.Url
@@ -656,6 +707,71 @@ theorem builder_text_args (o : UrlOpaque) (path : Str) (base : Option Str) (s : 
     requestArgs b.environ.toEnviron = some (Urlencode.parseQsl true s) :=
   Wz.Url.builder_text_args h
 
+/-- **The two hand models of `unquote(s, "utf-8", "werkzeug.url_quote")` are one function**: C02's
+(inside its `parse_qsl` model: Lean core's strict UTF-8 decoder, a monolithic re-quoting scanner for
+invalid input) and this property's (`firstItem` / `items` / `render`) agree on every string - so the
+theorems about `unquote` / `_unquote_partial` above speak about the `unquote` inside `Request.args`'s
+`parse_qsl` too. -/
+theorem unquote_models_agree (s : Str) : Urlencode.unquote s = unquote s :=
+  unquote_models_eq s
+
+example : Urlencode.unquote "a%C3%A9%FF%E2%82+%zz".toList = "aé%FF%E2%82+%zz".toList ∧
+    unquote "a%C3%A9%FF%E2%82+%zz".toList = "aé%FF%E2%82+%zz".toList := by decide +kernel
+
+/-- **`uri_to_iri`'s query unquoter never changes the mapping a query denotes**: for every query text
+of the `%XX` grammar (any Unicode, invalid bytes, reserved characters), `parse_qsl(keep_blank_values=
+True)` reads the same pairs from `_unquote_query(text)` as from `text` - the raw `&` `=` `+` it splits
+at are neither produced nor consumed (their escapes `%26` `%3D` `%2B` and `%20` stay quoted), every
+other escape is merely decoded earlier. -/
+theorem parse_qsl_after_partial_unquote (s : Str) (hs : wellFormed s = true) :
+    Urlencode.parseQsl true (unquotePartial Gen.UrlTables.keepQuery s) = Urlencode.parseQsl true s :=
+  parseQsl_unquotePartial keep_tables_ok.2.1 keepQuery_seps.1 keepQuery_seps.2.1 keepQuery_seps.2.2 s hs
+
+example : wellFormed "a+b=%26%3D%2B%C3%A9&%FF=%41&&x".toList = true := by decide
+
+example : unquotePartial Gen.UrlTables.keepQuery "a+b=%26%3D%2B%C3%A9&%FF=%41&&x".toList
+      = "a+b=%26%3D%2Bé&%FF=A&&x".toList ∧
+    Urlencode.parseQsl true "a+b=%26%3D%2Bé&%FF=A&&x".toList
+      = [("a b".toList, "&=+é".toList), ("%FF".toList, "A".toList), ("x".toList, [])] ∧
+    Urlencode.parseQsl true "a+b=%26%3D%2B%C3%A9&%FF=%41&&x".toList
+      = [("a b".toList, "&=+é".toList), ("%FF".toList, "A".toList), ("x".toList, [])] := by decide +kernel
+
+/-- outside the `%XX` grammar the statement is false (`%%34%31` reads `%41` after the partial pass,
+which `parse_qsl` then reads as `A`): -/
+theorem parse_qsl_after_partial_unquote_needs_wellformed :
+    Urlencode.parseQsl true (unquotePartial Gen.UrlTables.keepQuery "%%34%31".toList)
+      ≠ Urlencode.parseQsl true "%%34%31".toList := by decide +kernel
+
+/-- **The reconstructed URL's query component denotes the mapping given to the builder.** For every
+`EnvironBuilder(path=p, base_url=scheme://host[:port]root, query_string=<mapping>)` with `p`, the base
+URL and the host as in `environ_url_roundtrip` and ANY list of pairs over Unicode as the mapping
+(repeated / empty keys, `&` `=` `+` `%` `#` and non-ASCII text inside keys and values): the environ is
+built, `Request.url` is produced and splits, and `parse_qsl(urlsplit(Request.url).query,
+keep_blank_values=True)` is exactly the list of pairs - as is `Request.args`. (`_urlencode`, the
+dances, `get_current_url`'s `quote(query_string, safe=...)`, `uri_to_iri`'s `_unquote_query` and
+`parse_qsl` compose to the identity; the `quote` leaves `_urlencode`'s output alone -
+`urlencode_alphabet_fixed`, two regenerated literals - and the partial unquoting does not change what
+`parse_qsl` reads - `parse_qsl_after_partial_unquote`.) -/
+theorem environ_url_query_denotes_mapping (o : UrlOpaque) (laws : HostLaws o)
+    (scheme h ha root p : Str) (port : Option Nat) (l : List (Str × Str))
+    (b : BaseArg o scheme h port root) (hp : PathArg p) (hpp : '%' ∉ p) (hrp : '%' ∉ root)
+    (hconv : o.hostToAscii h = some ha) :
+    ∃ bd rv t, builderInit o p (some (baseText scheme h port root)) (.items l) = .ok bd ∧
+      requestView o bd.environ.toEnviron = .ok rv ∧ urlsplit o rv.url = .ok t ∧
+      Urlencode.parseQsl true t.query = l ∧ requestArgs bd.environ.toEnviron = some l := by
+  obtain ⟨hu, hconvu⟩ := laws.u_of_a _ _ hconv
+  obtain ⟨bd, rv, t, h1, h2, h3, h4⟩ :=
+    builder_url_query_mapping laws keep_tables_ok urlencode_safe_ok.1 l b hp hpp hrp hconv hconvu
+  exact ⟨bd, rv, t, h1, h2, h3, h4, (builder_args_roundtrip o p _ l bd h1).2⟩
+
+example : ((builderInit plainOpaque "/é x".toList (some "https://example.com:8443/app/".toList)
+      (.items [("a b".toList, "&=+%#é".toList), ([], []), ("k".toList, "1".toList), ("k".toList, "2".toList)])).bind
+      (fun bd => (requestView plainOpaque bd.environ.toEnviron).bind (fun rv => (urlsplit plainOpaque rv.url).map
+        (fun t => (t.query, Urlencode.parseQsl true t.query))))).toOption
+    = some ("a+b=%26%3D%2B%25%23é&=&k=1&k=2".toList,
+        [("a b".toList, "&=+%#é".toList), ([], []), ("k".toList, "1".toList), ("k".toList, "2".toList)]) := by
+  decide +kernel
+
 /-- **`Request.full_path` is `path + "?" + query`** - the `?` is there even when the query string is
 empty - for every environ whose PATH_INFO / QUERY_STRING are the dances of Unicode texts. -/
 theorem full_path_keeps_question_mark (scheme host root p qs : Str) :
@@ -664,27 +780,73 @@ theorem full_path_keeps_question_mark (scheme host root p qs : Str) :
 
 example : requestFullPath (danceEnviron "http".toList "h".toList [] "/é".toList []) = some "/é?".toList := by decide
 
-/-- **`EnvironBuilder.from_environ` round trip.** For the environ a builder produces from arguments of
-the property's domain (host in its ASCII form, path and root without `%`; `PathArg`, `BaseArg`):
-`from_environ(environ)` succeeds, and the builder it returns builds the same SCRIPT_NAME, PATH_INFO,
-QUERY_STRING, HTTP_HOST and wsgi.url_scheme again (`_make_base_url`, the decoding dances and the whole
-of `__init__` / `get_environ` in between). -/
+/-- **`EnvironBuilder.from_environ` round trip** (the `_partial` side of known finding F15f). For the
+environ a builder produces from arguments of the property's domain (host in its ASCII form; `PathArg`:
+a path starting with exactly one `/`, without `?`, `#` and TAB / CR / LF - F15c -; `BaseArg`, root
+without `%`) whose path contains **no `%XX` escape** (`noEscape`: no `%` followed by two hex digits - a
+literal `%` that starts no escape, as in `/100%`, is inside the domain): `from_environ(environ)`
+succeeds, and the builder it returns builds the same SCRIPT_NAME, PATH_INFO, QUERY_STRING, HTTP_HOST
+and wsgi.url_scheme again (`_make_base_url`, the decoding dances and the whole of `__init__` /
+`get_environ` in between) - hence the same `Request.path` / `args` / `host` / `url`. The excluded
+paths are exactly those of F15f (`%XX`, `?`, `#`), F15c (TAB / CR / LF) and the quantifier's `//`;
+each exclusion is needed: `from_environ_roundtrip_full_false`, `from_environ_reinterprets_decoded_path`. -/
 theorem from_environ_roundtrip (o : UrlOpaque) (laws : HostLaws o) (scheme ha root p qs : Str)
-    (port : Option Nat) (b : BaseArg o scheme ha port root) (hp : PathArg p) (hpp : '%' ∉ p) (hrp : '%' ∉ root)
-    (hfix : o.hostToAscii ha = some ha) :
+    (port : Option Nat) (b : BaseArg o scheme ha port root) (hp : PathArg p) (hpp : noEscape p = true)
+    (hrp : '%' ∉ root) (hfix : o.hostToAscii ha = some ha) :
     ∃ b', fromEnviron o (danceEnviron scheme (hostBr ha ++ portText port) (rstripSlash root) p qs) = .ok b' ∧
       b'.environ.toEnviron = danceEnviron scheme (hostBr ha ++ portText port) (rstripSlash root) p qs :=
-  Wz.Url.from_environ_roundtrip laws qs b hp hpp hrp hfix
+  Wz.Url.from_environ_roundtrip_noEscape laws qs b hp hpp hrp hfix
+
+example : noEscape "/100%/%zz/%4/é x".toList = true ∧ noEscape "/%41".toList = false ∧
+    noEscape "/a%2".toList = true := by decide
 
 example : ((fromEnviron plainOpaque (danceEnviron "https".toList "example.com:8443".toList "/ap p".toList
     "/é x".toList "q=é".toList)).toOption.map (fun b => (b.baseUrl, b.environ.pathInfo, b.environ.scriptName)))
     = some ("https://example.com:8443/ap%20p/".toList, encodingDance "/é x".toList, "/ap p".toList) := by decide
 
-/-- the exclusions are needed here too, and they bite harder: `from_environ` hands the DECODED
-PATH_INFO to a parameter that reads `%XX`, `?` and `#` as URL syntax - the environ of a request for
-`/%2541` (PATH_INFO `/%41`) comes back with PATH_INFO `/A`, the one for `/a%3Fb` (PATH_INFO `/a?b`) is
-refused with ValueError, the one for `/a%23b` loses `#b`. (Not a clause of the property text - the
-property speaks about arguments given to the builder - but worth knowing: see the report.) -/
+/-- a literal `%` that starts no escape goes round: the environ of a request for `/100%25/%25zz` -/
+example : ((fromEnviron plainOpaque (danceEnviron "http".toList "localhost".toList [] "/100%/%zz".toList
+    [])).toOption.map (fun b => b.environ.pathInfo)) = some "/100%/%zz".toList := by decide
+
+/-- **Known finding F15f, as a theorem about the model**: `EnvironBuilder.from_environ` does NOT turn
+every environ back into a builder of the same request. It hands the DECODED PATH_INFO to `__init__`'s
+`path` parameter, which reads `%XX`, `?` and `#` as URL syntax: for the environ of a request for
+`/%2541` (PATH_INFO `/%41`, `Request.path == "/%41"`) the new builder's environ has PATH_INFO `/A`.
+The unrestricted round trip - for every PATH_INFO that starts with exactly one `/` - is false.
+
+Why this is a finding of C15 and not merely an observation: the property says "a path, query and base
+URL given to the environ builder are recovered exactly by the request object". `from_environ` is an
+entry point of the environ builder; what is given to it is an environ, whose PATH_INFO *denotes a
+path* (decoded text - unlike the constructor's `path`, whose docstring makes it URL syntax, so that
+`%XX` / `?` / `#` there are outside the domain of `environ_url_roundtrip`). `Request(from_environ(e)
+.get_environ()).path != Request(e).path` therefore is "a path given to the environ builder is not
+recovered by the request". The quantifier text enumerates the constructor form "(path, query mapping,
+base_url) given to EnvironBuilder"; `from_environ` literally makes that call (`cls(path=..., base_url=
+..., query_string=...)`) with the decoded PATH_INFO as `path`, so the only reading under which F15f is
+outside the statement is "the caller of `from_environ` meant PATH_INFO as URL syntax", which
+contradicts WSGI and the method's own changelog entry ("passed through the WSGI decoding dance to
+avoid double encoding"). Registered as F15f (stream from-environ, findings/F15f.json). SCRIPT_NAME
+goes through the URL-syntax `base_url` in the same way (not varied by the stream).
+Proposed repair: quote `%`, `?`, `#` - and TAB / CR / LF, F15c - in the decoded PATH_INFO (and
+SCRIPT_NAME) before handing them to `cls(...)`, e.g. `quote(path, safe="!$&'()*+,/:;=@")`. -/
+theorem from_environ_roundtrip_full_false :
+    ¬ (∀ p : Str, p.head? = some '/' → (p.drop 1).head? ≠ some '/' →
+        ∃ b', fromEnviron plainOpaque (danceEnviron "http".toList "localhost".toList [] p []) = .ok b' ∧
+          b'.environ.toEnviron = danceEnviron "http".toList "localhost".toList [] p []) := by
+  intro h
+  obtain ⟨b', h1, h2⟩ := h "/%41".toList (by decide) (by decide)
+  have hm : (fromEnviron plainOpaque (danceEnviron "http".toList "localhost".toList [] "/%41".toList [])).toOption.map
+      (fun b => b.environ.pathInfo) = some "/A".toList := by decide
+  rw [h1] at hm
+  have h3 : b'.environ.pathInfo = "/A".toList := by simpa [Except.toOption] using hm
+  have h4 : b'.environ.toEnviron.pathInfo = "/%41".toList := by rw [h2]; decide
+  rw [h4] at h3
+  exact absurd h3 (by decide)
+
+/-- the three shapes of F15f (and why `noEscape`, no `?`, no `#` are all needed in
+`from_environ_roundtrip`): the environ of a request for `/%2541` (PATH_INFO `/%41`) comes back with
+PATH_INFO `/A`, the one for `/a%3Fb` (PATH_INFO `/a?b`) is refused with ValueError, the one for
+`/a%23b` loses `#b`. -/
 theorem from_environ_reinterprets_decoded_path :
     let run := fun (p : String) =>
       (fromEnviron plainOpaque (danceEnviron "http".toList "localhost".toList [] p.toList [])).toOption.map
@@ -749,6 +911,35 @@ theorem get_host_tables_agree :
       ∀ s ∈ r.1, getHost s.toList ("h".toList ++ r.2.1.toList) = "h".toList) ∧
     (∀ row ∈ Gen.UrlGlue.getHostTable, getHost row.1.toList row.2.1.toList = row.2.2.toList) := by
   refine ⟨by decide, by decide, by decide +kernel⟩
+
+/-- **`get_host` without a Host header falls back to the server address and reports the same text a
+Host header would**: for a SERVER_NAME that is a name, an IPv4 address or a bare IPv6 address (wrapped
+in brackets) and a SERVER_PORT, the host is `name:port` with the scheme's default port cut - exactly
+`get_host(scheme, "name:port")`; with a Host header the server address is ignored. -/
+theorem get_host_server_fallback (scheme name : Str) (k : Nat) (hn : name.head? ≠ some '[') :
+    getHostFull scheme none (some (name, some (k + 1)))
+      = hostBr name ++ portText (dropDefaultPort scheme (some (k + 1))) ∧
+    (∀ h srv, getHostFull scheme (some h) srv = getHost scheme h) := by
+  refine ⟨?_, fun _ _ => rfl⟩
+  have hb : (name.head? != some '[') = true := by simpa using hn
+  have : hostOrServer none (some (name, some (k + 1))) = hostBr name ++ portText (some (k + 1)) := by
+    simp only [hostOrServer, hb, Bool.and_true, hostBr, portText]
+  unfold getHostFull
+  rw [this, getHost_hostport]
+
+example : ("2001:db8::1".toList).head? ≠ some '[' := by decide
+
+example : getHostFull "https".toList none (some ("2001:db8::1".toList, some 443)) = "[2001:db8::1]".toList ∧
+    getHostFull "http".toList none (some ("web08".toList, some 8080)) = "web08:8080".toList ∧
+    getHostFull "http".toList (some "hdr:80".toList) (some ("web08".toList, some 8080)) = "hdr".toList := by decide
+
+/-- the model of the fallback agrees with the live function on the generated scheme x Host header x
+server table (IPv6 names with and without brackets, unix socket paths, port `None` / 0 / default) -/
+theorem get_host_server_table_agrees :
+    ∀ row ∈ Gen.UrlGlue.getHostServerTable,
+      getHostFull row.1.toList (row.2.1.map String.toList) (row.2.2.1.map fun p => (p.1.toList, p.2))
+        = row.2.2.2.toList := by
+  decide +kernel
 
 /-- `EnvironBuilder.server_name` / `server_port` (SERVER_NAME / SERVER_PORT of the environ): the model
 agrees with the live object on the generated scheme x host table - 443 for https, 80 otherwise, the
